@@ -8,7 +8,10 @@
 //   m <act>                   ordinary code performs <act> now
 //   end
 // acts: wake:<d|a|r|x|p>:<ids> detach:<d|a|r|x|p>:<id> gather:<d|a>:<ids> park parkn parkp wakep:<id> pause swap
-//       start:<id> startc:<id> spawn:<id> call:<id> join:<id> hop hopc fwait end enter leave leavex
+//       start:<id> startc:<id> spawn:<id> call:<id> join:<id> hop hopc fwait end enter leave leavex gnext:<id> gyield
+//   gnext:<id>: synchronous access to the coroutine <id> as a cocls::generator<int> (created by the first access; the body runs the
+//   script of <id>): bool(gen.next()) (id % 3 == 0), gen() (== 1) or gen.next().subscribe(awaiter) (== 2). Only a generator whose body
+//   has not started or is suspended in co_yield is accessed. gyield: co_yield in a generator body (a no-op in any other coroutine)
 //   mode x: the suspend point is held in a local and destroyed by stack unwinding (an exception leaves the block and is
 //   caught outside); leavex: the callback of install_queue_and_call ends by throwing (caught outside the call)
 //   mode p: parallel_resume(std::move(sp)) (resume.h); parkp: co_await parallel(future); wakep: resolve that future
@@ -34,6 +37,7 @@
 #include <sys/syscall.h>
 #include <cocls/async.h>
 #include <cocls/future.h>
+#include <cocls/generator.h>
 #include <cocls/mutex.h>
 #include <cocls/queue.h>
 
@@ -68,7 +72,7 @@ struct verif_thread {
 using namespace cocls;
 
 enum Kind { WAKE, PARK, PARKN, PARKP, WAKEP, PAUSE, SWAP, START, STARTC, SPAWN, CALL, JOIN, HOP, HOPC, FWAIT, END, ENTER, LEAVE,
-            LEAVEX, BAD };
+            LEAVEX, GNEXT, GYIELD, BAD };
 
 struct Act {
     Kind k = BAD;
@@ -132,6 +136,10 @@ static Act parse_act(const std::string &tok) {
     else if (p.size() == 1 && k == "enter") a.k = ENTER;
     else if (p.size() == 1 && k == "leave") a.k = LEAVE;
     else if (p.size() == 1 && k == "leavex") a.k = LEAVEX;
+    else if (p.size() == 1 && k == "gyield") a.k = GYIELD;
+    else if (p.size() == 2 && k == "gnext") {
+        if (to_nat(p[1], a.d)) a.k = GNEXT;
+    }
     else if (p.size() == 2 && (k == "start" || k == "startc" || k == "spawn" || k == "call" || k == "join" || k == "wakep")) {
         if (to_nat(p[1], a.d))
             a.k = k == "start" ? START : k == "startc" ? STARTC : k == "spawn" ? SPAWN : k == "call" ? CALL
@@ -152,6 +160,12 @@ struct Co {
     cocls::mutex::ownership own;
     std::unique_ptr<queue<int>> q;
     std::unique_ptr<future<void>> fut;
+    // the coroutine is the body of a generator (its first activation was an access)
+    bool isgen = false;
+    bool atyield = false;  // the body has not started yet or is suspended in co_yield: the generator may be accessed
+    malleable_awaiter gaw; // the awaiter of the subscribe() access style (default resume function: does nothing)
+    std::unique_ptr<future<int>> gfut;
+    std::unique_ptr<generator<int>> gen;  // last: destroyed first
 };
 
 // work handed to another thread, in creation order
@@ -299,6 +313,7 @@ struct ptask {
 template <typename R>
 static R body_t(int id);
 static async<void> body(int id) { return body_t<async<void>>(id); }
+static void gen_access(int d);
 
 // one suspend point with the handles of the wakeable targets, in the order of `ids`
 static suspend_point<void> collect(const std::vector<int> &ids) {
@@ -564,6 +579,19 @@ static R body_t(int id) {
                 }
                 break;
             }
+            case GNEXT: {
+                gen_access(a.d);
+                break;
+            }
+            case GYIELD: {
+                if constexpr (std::is_same_v<R, generator<int>>) {
+                    me.atyield = true;
+                    suspending(id);
+                    co_yield int(k);
+                    resumed(id);
+                }
+                break;
+            }
             default: break;
         }
     }
@@ -571,6 +599,30 @@ static R body_t(int id) {
     me.done = true;
     me.running = false;
     co_return;
+}
+
+// synchronous / future / callback access to coroutine d as a generator (generator.h: next_sync, next_future, next_awt::subscribe)
+static void gen_access(int d) {
+    Co &g = G->get(d);
+    if (!g.spawned) {
+        g.spawned = true;
+        g.isgen = true;
+        g.atyield = true;  // suspended in initial_suspend: the first access starts the body
+        g.gen.reset(new generator<int>(body_t<generator<int>>(d)));
+    }
+    if (!g.isgen || !g.atyield || g.done || G->shutdown) return;
+    g.atyield = false;
+    ++G->depth;
+    if (d % 3 == 0) {
+        bool b = !!g.gen->next();
+        (void)b;
+    } else if (d % 3 == 1) {
+        g.gfut.reset();
+        g.gfut.reset(new future<int>((*g.gen)()));
+    } else {
+        g.gen->next().subscribe(&g.gaw);
+    }
+    --G->depth;
 }
 
 static void main_act(const Act &a) {
@@ -610,6 +662,8 @@ static void main_act(const Act &a) {
             body_t<ptask>(a.d);
             --G->depth;
         }
+    } else if (a.k == GNEXT) {
+        gen_access(a.d);
     }
 }
 
